@@ -847,7 +847,10 @@ func (ts tasks) numToDo() (todo, notes int) {
 func (s *Server) CancelRequest(id string) {
 	s.mu.Lock()
 	defer s.mu.Unlock()
-	if s.cancelLocked(id) {
+	// Cancel the context but keep the ID reserved: the handler may still be
+	// running, and deliver releases the ID once the reply has been sent.
+	if cancel, ok := s.used[id]; ok {
+		cancel()
 		s.log("Cancelled request %s by client order", id)
 	}
 }
